@@ -10,7 +10,6 @@ the same caller operations up to k but WITHOUT the other class definitions.  The
 fingerprint of class k observed at the END of the full history must equal the fingerprint
 observed in the alone run, and both must equal what the Coq model computes.
 """
-from __future__ import annotations
 
 import inspect
 import itertools
@@ -107,8 +106,27 @@ def _mk_hook(name):
     return h
 
 
+class Money:
+    pass
+
+
 VALS = {n: _mk_validator(n) for n in ("v1", "v2", "v3", "vb")}
 CONVS = {n: _mk_converter(n) for n in ("c1", "c2", "c3")}
+# closures of ONE def (same code object), individually annotated: the model's `conv_ann` table
+CONVS["c1"].__annotations__ = {"value": str}
+CONVS["c3"].__annotations__ = {"value": int}
+TYPE_NS = {"Money": Money, "int": int, "str": str}
+
+
+def canon_ty(x):
+    """Annotation / type as the model sees it: string annotation vs. object, by name."""
+    if x is None:
+        return None
+    if isinstance(x, str):
+        return "s:" + x
+    if isinstance(x, type):
+        return "t:" + x.__name__
+    return "t:" + str(x)
 HOOKS = {n: _mk_hook(n) for n in ("h1", "h2")}
 HOOKS["convert"] = setters.convert
 HOOKS["validate"] = setters.validate
@@ -190,18 +208,33 @@ class BPost:
         LOG.append("post")
 
 
-BASES = {"obj": object, "frozen": BFrozen, "frozend": BFrozenD, "hooked": BHooked,
+@attrs.frozen
+class BStr:
+    amount: "Money" = 0
+    note: "str" = ""
+
+
+@attrs.define
+class BStrM:
+    amount: "Money" = 0
+
+
+BASES = {"bstr": BStr, "bstrm": BStrM, "obj": object, "frozen": BFrozen, "frozend": BFrozenD, "hooked": BHooked,
          "hookedd": BHookedD, "plain": BPlain, "post": BPost, "exc": Exception}
 
 # name -> (frozen, is_exc, own_setattr, hashable, pre, post, base field: None | (has validator))
 BASE_FACTS = {
     "obj":     dict(frozen=False, exc=False, ownsa=False, hashable=True, pre=False, post=False, attrs=[]),
-    "frozen":  dict(frozen=True, exc=False, ownsa=False, hashable=True, pre=False, post=False, attrs=[("a", [])]),
-    "frozend": dict(frozen=True, exc=False, ownsa=False, hashable=True, pre=False, post=False, attrs=[("a", [])]),
-    "hooked":  dict(frozen=False, exc=False, ownsa=True, hashable=False, pre=False, post=False, attrs=[("a", ["vb"])]),
-    "hookedd": dict(frozen=False, exc=False, ownsa=True, hashable=False, pre=False, post=False, attrs=[("a", ["vb"])]),
-    "plain":   dict(frozen=False, exc=False, ownsa=False, hashable=False, pre=False, post=False, attrs=[("a", [])]),
-    "post":    dict(frozen=False, exc=False, ownsa=False, hashable=False, pre=False, post=True, attrs=[("a", [])]),
+    "frozen":  dict(frozen=True, exc=False, ownsa=False, hashable=True, pre=False, post=False, attrs=[("a", [], None)]),
+    "frozend": dict(frozen=True, exc=False, ownsa=False, hashable=True, pre=False, post=False, attrs=[("a", [], "t:int")]),
+    "hooked":  dict(frozen=False, exc=False, ownsa=True, hashable=False, pre=False, post=False, attrs=[("a", ["vb"], "t:int")]),
+    "hookedd": dict(frozen=False, exc=False, ownsa=True, hashable=False, pre=False, post=False, attrs=[("a", ["vb"], "t:int")]),
+    "plain":   dict(frozen=False, exc=False, ownsa=False, hashable=False, pre=False, post=False, attrs=[("a", [], None)]),
+    "post":    dict(frozen=False, exc=False, ownsa=False, hashable=False, pre=False, post=True, attrs=[("a", [], None)]),
+    "bstr":    dict(frozen=True, exc=False, ownsa=False, hashable=True, pre=False, post=False,
+                    attrs=[("amount", [], "s:Money"), ("note", [], "s:str")]),
+    "bstrm":   dict(frozen=False, exc=False, ownsa=False, hashable=False, pre=False, post=False,
+                    attrs=[("amount", [], "s:Money")]),
     "exc":     dict(frozen=False, exc=True, ownsa=False, hashable=True, pre=False, post=False, attrs=[]),
 }
 
@@ -231,6 +264,10 @@ class World:
             return [table[s] for s in a[1]]
         if a[0] == "conv":
             return self.convs[a[1]]      # the shared attrs.Converter instance itself
+        if a[0] == "opt":
+            return attrs.converters.optional(table[a[1]])
+        if a[0] == "pipe":
+            return attrs.converters.pipe(*[table[s] for s in a[1]])
         return self.lists[a[1]]          # the shared list object itself
 
     def hook_arg(self, a):
@@ -286,7 +323,9 @@ def body_source(spec):
     n = 0
     for f in spec["fields"]:
         e = f["e"]
-        ann = (": ClassVar[int]" if f.get("cv") else ": int") if f.get("ann") else ""
+        ty = f.get("ty") or "t:int"
+        tsrc = repr(ty[2:]) if ty.startswith("s:") else ty[2:]
+        ann = (": ClassVar[int]" if f.get("cv") else ": " + tsrc) if f.get("ann") else ""
         if e == "own":
             lines.append("    %s%s = W.attrib(%r)" % (f["n"], ann, f["a"]))
         elif e == "shared":
@@ -314,7 +353,8 @@ def _fresh_module():
 def exec_body(world, spec):
     mod = _fresh_module()
     ns = mod.__dict__
-    ns.update(W=world, BASES=BASES, OWN_FUNCS=OWN_FUNCS, ClassVar=__import__("typing").ClassVar)
+    ns.update(W=world, BASES=BASES, OWN_FUNCS=OWN_FUNCS, ClassVar=__import__("typing").ClassVar,
+              Money=Money)
     exec(compile(body_source(spec), "<c16 body>", "exec"), ns)
     return ns["K"]
 
@@ -361,6 +401,10 @@ def step(world, op):
         world.dicts[op[1]][name] = world.cas[v[1]] if v[0] == "ca" else OWN_FUNCS[name]
     elif k == "ddel":
         world.dicts[op[1]].pop(op[2], None)
+    elif k == "cop":
+        cls = world.classes[op[1]]
+        if not isinstance(cls, str):
+            class_op(cls, op[2])
     elif k == "apply":
         try:
             if isinstance(world.decos[op[1]], str):
@@ -391,20 +435,48 @@ def step(world, op):
 DEF_OPS = ("apply", "make_class")
 
 
+def class_op(cls, kind):
+    """What the public API offers on a class that exists already."""
+    if kind == "resolve":
+        attrs.resolve_types(cls, globalns=dict(TYPE_NS))
+    elif kind == "fields":
+        attr.fields(cls)
+        attr.fields_dict(cls)
+        attrs.has(cls)
+    elif kind == "evolve":
+        [a.evolve(kw_only=True, type=str, inherited=True, metadata={"zz": 1}) for a in attr.fields(cls)]
+    elif kind == "validate":
+        try:
+            inst = cls(**{a.alias: 1 for a in attr.fields(cls) if a.init})
+            attr.validate(inst)
+            attr.asdict(inst)
+        except Exception:                          # noqa: BLE001
+            pass
+    else:
+        raise AssertionError(kind)
+
+
 def alone_ops(ops, k):
     """The history of definition step number k (0-based among definitions) without the other
-    definitions: every caller operation before it, then the definition itself."""
+    definitions (mirror of `alone` in C16/Model.v): every caller operation before it, the
+    definition itself, and the class operations applied to THAT class afterwards."""
     out = []
     n = -1
-    for op in ops:
+    it = iter(ops)
+    for op in it:
         if op[0] in DEF_OPS:
             n += 1
             if n == k:
                 out.append(op)
-                return out
-        else:
+                break
+        elif op[0] != "cop":
             out.append(op)
-    raise AssertionError
+    else:
+        raise AssertionError
+    for op in it:
+        if op[0] == "cop" and op[1] == k:
+            out.append(["cop", 0, op[2]])
+    return out
 
 
 # ------------------------------------------------------------------------------------------
@@ -447,7 +519,8 @@ def fingerprint(cls):
             else:
                 cs = _fired(lambda: a.converter(0))[0]
         flds.append({"n": a.name, "kw": bool(a.kw_only), "d": a.default is not attr.NOTHING,
-                     "init": bool(a.init), "v": vs, "c": cs, "m": sorted(a.metadata),
+                     "init": bool(a.init), "ty": canon_ty(a.type), "v": vs, "c": cs,
+                     "m": sorted(a.metadata),
                      "inh": bool(a.inherited)})
     fp["fields"] = flds
     fp["hash"] = _kind_of(cls, "__hash__")
@@ -466,6 +539,17 @@ def fingerprint(cls):
                          for p in list(inspect.signature(cls.__init__).parameters.values())[1:]]
         except Exception as e:                     # noqa: BLE001
             fp["sig"] = type(e).__name__
+        try:
+            ann = cls.__init__.__annotations__
+            params = inspect.signature(cls.__init__).parameters
+            fp["ann"] = [[a.name, canon_ty(ann.get(a.alias))] for a in attr.fields(cls) if a.init]
+            for a in attr.fields(cls):
+                if a.init:
+                    pa = params[a.alias].annotation
+                    if canon_ty(None if pa is inspect.Parameter.empty else pa) != canon_ty(ann.get(a.alias)):
+                        fp["sig"] = "signature and __annotations__ disagree"
+        except Exception as e:                     # noqa: BLE001
+            fp["sig"] = type(e).__name__
 
         def build():
             nonlocal inst
@@ -479,6 +563,7 @@ def fingerprint(cls):
             inst = cls()
         log, exc = _fired(build)
         fp["sig"] = None
+        fp["ann"] = None
         fp["construct"] = {"pre": "pre" in log, "post": "post" in log, "own": "own_init" in log,
                            "exc": exc}
     if inst is None:
@@ -533,7 +618,14 @@ def containers(world):
         if v is OWN_FUNCS.get(name):
             return ["fn"]
         return ["?"]
+    owners = {}
+    shared = False
+    for c in list(BASES.values()) + [c for c in world.classes if not isinstance(c, str)]:
+        for a in c.__dict__.get("__attrs_attrs__", ()):
+            if owners.setdefault(id(a), c) is not c:
+                shared = True
     return {
+        "noshare": not shared,
         "lists": [[sym_of.get(id(x), "?") for x in l] for l in world.lists],
         "metas": [sorted(m) for m in world.metas],
         "dicts": [[[n, dval(n, v)] for n, v in d.items()] for d in world.dicts],
@@ -583,7 +675,19 @@ def enc_seq(a):
         return "(SLit %s)" % lst(q(s) for s in a[1])
     if a[0] == "conv":
         return "(SConv %d)" % a[1]
+    if a[0] == "opt":
+        return "(SOpt %s)" % q(a[1])
+    if a[0] == "pipe":
+        return "(SLit %s)" % lst(q(s) for s in a[1])
     return "(SList %d)" % a[1]
+
+
+def enc_ty(t):
+    return "(%s %s)" % ("TStr" if t.startswith("s:") else "TObj", q(t[2:]))
+
+
+def enc_oty(t):
+    return "None" if t is None else "(Some %s)" % enc_ty(t)
 
 
 def enc_hookarg(a):
@@ -662,7 +766,7 @@ def enc_base(name):
     f = BASE_FACTS[name]
     return "(BI %s %s %s %s %s %s %s)" % (
         b(f["frozen"]), b(f["exc"]), b(f["ownsa"]), b(f["hashable"]), b(f["pre"]), b(f["post"]),
-        lst("(BA %s %s)" % (q(n), lst(q(v) for v in vs)) for n, vs in f["attrs"]))
+        lst("(BA %s %s %s)" % (q(n), lst(q(v) for v in vs), enc_oty(t)) for n, vs, t in f["attrs"]))
 
 
 def enc_body(spec):
@@ -674,7 +778,8 @@ def enc_body(spec):
             ent = "(EOwn %s)" % enc_attrib(f["a"])
         elif e == "shared":
             ent = "(EShared %d)" % f["sid"]
-        fs.append("(F %s %s %s %s)" % (q(f["n"]), ent, b(bool(f.get("ann"))), b(bool(f.get("cv")))))
+        fs.append("(F %s %s %s %s %s)" % (q(f["n"]), ent, b(bool(f.get("ann"))), b(bool(f.get("cv"))),
+                                          enc_ty(f.get("ty") or "t:int")))
     own = spec.get("own", {})
     return "(CB %s %s %s %s %s %s %s %s)" % (
         lst(fs), b(bool(own.get("hash"))), b(bool(own.get("eq"))), b(bool(own.get("setattr"))),
@@ -716,6 +821,8 @@ def enc_op(op):
         return "(ODictSet %d %s %s)" % (op[1], q(op[2][0]), enc_dval(op[2][1]))
     if k == "ddel":
         return "(ODictDel %d %s)" % (op[1], q(op[2]))
+    if k == "cop":
+        return "(OClassOp %s %d)" % ("CResolve" if op[2] == "resolve" else "CPure", op[1])
     if k == "apply":
         return "(OApply %d %s)" % (op[1], enc_body(op[2]))
     if k == "make_class":
@@ -735,8 +842,8 @@ def enc_fp(fp):
         return "(FExc %s)" % EXC.get(fp["exc"], "EOther")
     if fp["construct"]["exc"] is not None or fp["assign"] is None or isinstance(fp["sig"], str):
         return "(FExc EOther)"      # something the model cannot express: forces a mismatch
-    flds = lst("(PF %s %s %s %s %s %s %s %s)" % (
-        q(f["n"]), b(f["kw"]), b(f["d"]), b(f["init"]), lst(q(s) for s in f["v"]),
+    flds = lst("(PF %s %s %s %s %s %s %s %s %s)" % (
+        q(f["n"]), b(f["kw"]), b(f["d"]), b(f["init"]), enc_oty(f["ty"]), lst(q(s) for s in f["v"]),
         lst(q(s) for s in f["c"]), lst(q(s) for s in f["m"]), b(f["inh"])) for f in fp["fields"])
     sig = "None" if fp["sig"] is None else "(Some %s)" % lst(
         "(%s, %s, %s)" % (q(n), b(kw), b(d)) for n, kw, d in fp["sig"])
@@ -747,22 +854,24 @@ def enc_fp(fp):
     ic = "None" if fp["initconv"] is None else "(Some %s)" % lst(
         "(%s, %s)" % (q(n), "None" if t is None else "(Some %s)" % lst(q(x) for x in t))
         for n, t in fp["initconv"])
-    return "(FOk (FP %s %s %s %s %s %s %s %s %s %s %s))" % (
-        flds, KIND[fp["hash"]], KIND[fp["eq"]], KIND[fp["init"]], sig, b(c["pre"]), b(c["post"]),
+    ann = "None" if fp["ann"] is None else "(Some %s)" % lst(
+        "(%s, %s)" % (q(n), enc_oty(t)) for n, t in fp["ann"])
+    return "(FOk (FP %s %s %s %s %s %s %s %s %s %s %s %s))" % (
+        flds, KIND[fp["hash"]], KIND[fp["eq"]], KIND[fp["init"]], sig, ann, b(c["pre"]), b(c["post"]),
         b(c["own"]), opt_b(fp["hashes"]), ic, asg)
 
 
 def mk_case(ops, scenario="?"):
     counter = attr._make._CountingAttr.cls_counter
     full, alone, cont = observe(ops)
-    term = "(Build_case %s %s %s %s %s %s %s)" % (
+    term = "(Build_case %s %s %s %s %s %s %s %s)" % (
         vlib.z(counter), lst(enc_op(o) for o in ops), lst(enc_fp(f) for f in full),
         lst(enc_fp(f) for f in alone),
         lst(lst(q(s) for s in l) for l in cont["lists"]),
         lst(lst(q(s) for s in m) for m in cont["metas"]),
-        lst(enc_pydict(d) for d in cont["dicts"]))
+        lst(enc_pydict(d) for d in cont["dicts"]), b(cont["noshare"]))
     leaks = [k for k in range(len(full)) if full[k] != alone[k]]
-    sig = {"scenario": scenario, "leak": bool(leaks)}
+    sig = {"scenario": scenario, "leak": bool(leaks), "attribute_objects_shared": not cont["noshare"]}
     seen = {"full": full, "alone": alone, "containers": cont, "differs_at": leaks}
     ndefs = len(full)
     return Case(term, {"ops": ops, "scenario": scenario}, seen, sig=sig, nontrivial=ndefs >= 2,
@@ -773,8 +882,11 @@ def mk_case(ops, scenario="?"):
 # catalogue
 
 
-def _f(n, e="own", ann=False, cv=False, sid=None, **a):
+def _f(n, e="own", ann=False, cv=False, sid=None, ty=None, **a):
     d = {"n": n, "e": e, "ann": ann}
+    if ty is not None:
+        d["ty"] = ty
+        d["ann"] = True
     if cv:
         d["cv"] = True
     if e == "own":
@@ -830,6 +942,18 @@ BODIES = {
     "init_false": _body([_f("x", init=False), _f("y")]),
     "empty": _body([]),
     "eq_frozen_base": _body([_f("x", ann=True, d=True)], base="frozen", eq=True),
+    # converter wrappers: closures of one def each (pipe / optional / the harness's own factory)
+    "conv_opt1": _body([_f("x", c=["opt", "c1"]), _f("y", d=True, c=["opt", "c2"])]),
+    "conv_opt3": _body([_f("x", ann=True, c=["opt", "c3"])]),
+    "conv_list21": _body([_f("x", c=["lit", ["c2", "c1"]])]),
+    "conv_list31": _body([_f("x", ty="t:str", c=["lit", ["c3", "c1"]]), _f("y", d=True, c=["one", "c2"])]),
+    "conv_pipe": _body([_f("x", c=["pipe", ["c3", "c2"]]), _f("y", d=True, c=["pipe", ["c2", "c3"]])]),
+    # string annotations (from __future__ import annotations) and classes as types
+    "str_ann": _body([_f("x", ty="s:Money"), _f("y", ty="s:int", d=True)]),
+    "obj_ann": _body([_f("x", ty="t:Money"), _f("y", ty="t:str", d=True, c=["one", "c1"])]),
+    "bstr_sub": _body([_f("b", ty="s:int", d=True)], base="bstr"),
+    "bstr_sub2": _body([_f("note", ty="s:Money", d=True), _f("c", ty="t:int", d=True)], base="bstr"),
+    "bstrm_sub": _body([_f("b", ty="s:str", d=True, v=["one", "v1"])], base="bstrm"),
 }
 
 DECOS = {
@@ -859,7 +983,7 @@ DECOS = {
 
 CORE_BODIES = ["plain_ib", "plain_ann", "mixed_unann", "own_hash", "own_eq", "own_setattr_v",
                "fb_conv", "fb_own_setattr", "hb_plain", "hb_val", "exc_base", "conv_val",
-               "field_hooks", "bad_order", "pre_post"]
+               "field_hooks", "bad_order", "pre_post", "conv_opt1", "conv_list21", "bstr_sub"]
 CORE_DECOS = ["s_ad_frozen", "s_ad", "s", "define", "define_dict", "frozen", "mutable_hooks",
               "s_ad_frozen_cache", "s_kw", "define_noop", "s_ad_slots", "s_validate"]
 
@@ -1077,6 +1201,42 @@ def shared_converter_cases(rng, thorough):
     return out
 
 
+COP_KINDS = ["resolve", "resolve", "resolve", "fields", "evolve", "validate"]
+TYPE_BODIES = ["bstr_sub", "bstr_sub2", "bstrm_sub", "str_ann", "obj_ann", "plain_ann", "fbd_conv_val",
+               "hb_plain", "conv_list31", "conv_opt3", "kw_fields", "ann_only"]
+
+
+def class_op_cases(rng, thorough):
+    """Definitions interleaved with what the public API offers on classes that exist already."""
+    out = []
+    decos = ["define", "frozen", "define_dict", "s", "s_aa", "define_kw", "mutable_hooks", "s_kw",
+             "frozen_dict_ad"]
+    # systematic: (A, op on A, B) for all pairs of the type-relevant bodies
+    pairs = list(itertools.product(TYPE_BODIES, repeat=2))
+    for d in (decos if thorough else decos[:3]):
+        for a, bb in (pairs if thorough else rng.sample(pairs, 60)):
+            kind = rng.choice(COP_KINDS) if thorough else "resolve"
+            ops = [["deco"] + list(DECOS[d]), ["apply", 0, BODIES[a]], ["cop", 0, kind],
+                   ["apply", 0, BODIES[bb]]]
+            if rng.random() < 0.5:
+                ops.append(["cop", rng.randrange(2), rng.choice(COP_KINDS)])
+            out.append(mk_case(ops, scenario="class-operations"))
+    n = 2500 if thorough else 250
+    names = list(BODIES)
+    for _ in range(n):
+        nd = rng.choice([1, 2])
+        ops = [["deco"] + list(DECOS[rng.choice(decos)]) for _i in range(nd)]
+        ndef = 0
+        for _i in range(rng.choice([2, 3, 3, 4])):
+            pool = TYPE_BODIES if rng.random() < 0.7 else names
+            ops.append(["apply", rng.randrange(nd), BODIES[rng.choice(pool)]])
+            ndef += 1
+            for _j in range(rng.choice([0, 1, 1, 2])):
+                ops.append(["cop", rng.randrange(ndef), rng.choice(COP_KINDS)])
+        out.append(mk_case(ops, scenario="class-operations"))
+    return out
+
+
 _PAIR_MEMO = {}
 
 
@@ -1106,6 +1266,7 @@ def generate(tier, seed):
     cases += shared_ca_cases(rng, thorough)
     cases += meta_list_cases(rng, thorough)
     cases += shared_converter_cases(rng, thorough)
+    cases += class_op_cases(rng, thorough)
     return cases
 
 
